@@ -255,7 +255,20 @@ def scenario_b(name):
                           ev_req('blockchain.block.header', [1, tip - 1], 'hdr-1-tip1')],
         'warm-then-reorg': [ev_req('blockchain.transaction.get_merkle', [tx4, 4], 'merkle4'),
                             ev_req('blockchain.block.header', [3, tip], 'hdr-3-tip')],
+        'burst': [],
     }[name]
+    if name == 'burst':
+        # a client pipelines several proof requests: they are all in flight together, their
+        # reads complete in any order (no reorganisation needed for them to interfere)
+        def burst(s):
+            for method, params, tag in (
+                    ('blockchain.block.header', [2, tip], 'b-hdr-2-tip'),
+                    ('blockchain.block.header', [1, tip - 2], 'b-hdr-1-tip2'),
+                    ('blockchain.transaction.id_from_pos', [4, 150, True], 'b-pos4'),
+                    ('blockchain.block.header', [tip - 1, tip - 1], 'b-hdr-tip1-tip1'),
+                    ('blockchain.transaction.get_merkle', [tx4, 4], 'b-merkle4')):
+                ev_req(method, params, tag)[1](s)
+        return base, y, [('burst', burst), ('fork', ev_fork), 'tick', 'tick', 'tick', 'tick']
     # one request in flight when the fork arrives (so that each of its reads in turn is the
     # oldest pending job and can be stalled / held), the others while blocks are being undone
     script = reqs[:1] + [('fork', ev_fork), 'tick'] + reqs[1:] + ['tick', 'tick', 'tick']
@@ -495,7 +508,7 @@ def run_case(case, res):
 def cases_for(tier):
     q = tier == 'quick'
     cases = [dict(history=h, all_positions=not q) for h in HISTORIES]
-    for scn in ('tx-proofs', 'header-proofs', 'warm-then-reorg'):
+    for scn in ('tx-proofs', 'header-proofs', 'warm-then-reorg', 'burst'):
         n = 5 if q else 16
         for i in range(n):
             cases.append(dict(scenario=scn, bound=1 if q else 2, shard=[i, n]))
@@ -520,8 +533,9 @@ def run(tier, seed, started):
         'distinct_nontrivial': len(res.sets.get('schedules', ())) + c['histories'],
         'rule': ('A: 4 chain histories (plain, large blocks replaced at depth 3 and 5, two reorgs in a '
                  'row) x every block x positions (every 9th in quick, all in thorough, all for small '
-                 'blocks) x 6 proof request kinds, and every (h <= cp <= tip) header proof; B: 3 '
-                 'in-flight scenarios x every choice vector with deviation cost <= bound'),
+                 'blocks) x 6 proof request kinds, and every (h <= cp <= tip) header proof; B: 4 '
+                 'in-flight scenarios x every choice vector with deviation cost <= bound; C: sliced '
+                 'undo jobs x 6 request sets x every slice point'),
         'tx_proofs_checked': c['tx_proofs_checked'], 'header_proofs_checked': c['header_proofs_checked'],
         'out_of_range_requests': c.get('out_of_range_requests', 0),
         'in_flight_replies_judged': c['in_flight_replies_judged'],
